@@ -353,6 +353,8 @@ func (w *World) unary(ctx context.Context, full string, md protoreflect.MethodDe
 	if len(spec.Resps) > 0 {
 		p = payloadFor(rs.spec.ID, 0, 'S', spec.Resps[0])
 	}
+	l.Sent = 1 // whether it reaches the client is judged from the response bytes
+	l.setSent(1)
 	return rs.method.mkResp(p), nil
 }
 
